@@ -17,6 +17,7 @@ import Driver.ShaftOps
 import Driver.CompOps
 import Driver.EngineOps
 import Driver.GhgOps
+import Driver.NoxOps
 open Lean Driver
 
 def dispatch (op : String) (j : Json) : Except String Json :=
@@ -32,6 +33,7 @@ def dispatch (op : String) (j : Json) : Except String Json :=
   | "engine" => engineOp op j
   | "hours" => hoursOp j
   | "ghg" => ghgOp op j
+  | "nox" => noxOp op j
   | _ => .error s!"unknown op family in '{op}'"
 
 def handle (line : String) : String :=
